@@ -333,6 +333,11 @@ type builder struct {
 	chunkMore bool
 	inChunk   bool
 	pend      uint64
+	// bit arrays: every chunk's data is byte aligned on its own, the array is the bit-wise
+	// concatenation of the chunks (a non-final chunk need not hold a multiple of 8 bits)
+	bitLen    uint64
+	chunkBits uint64
+	chunkBuf  []byte
 }
 
 func (b *builder) top() *Node { return b.stack[len(b.stack)-1] }
@@ -379,6 +384,7 @@ func Build(evs []ev.Event) (doc *Node, err error) {
 				b.chunkRem = e.U
 				b.chunkMore = e.B
 				b.inChunk = true
+				b.chunkBits, b.chunkBuf = e.U, b.chunkBuf[:0]
 				if b.arr.Kind == KMedia || b.arr.Kind == KCustom || !b.arrMedia {
 					b.arr.Count += e.U
 				}
@@ -392,14 +398,27 @@ func Build(evs []ev.Event) (doc *Node, err error) {
 				if !b.inChunk {
 					return nil, fmt.Errorf("event %d: array data outside chunk", i)
 				}
-				b.arr.Bytes = append(b.arr.Bytes, e.Bs...)
 				var got uint64
 				if b.arr.Kind == KArray && b.arr.AT == events.ArrayTypeBit {
+					b.chunkBuf = append(b.chunkBuf, e.Bs...)
 					got = uint64(len(e.Bs)) * 8
 					if got > b.chunkRem {
 						got = b.chunkRem
 					}
+					if got == b.chunkRem { // chunk complete: append its bits to the array
+						for i := uint64(0); i < b.chunkBits; i++ {
+							pos := b.bitLen + i
+							if pos/8 >= uint64(len(b.arr.Bytes)) {
+								b.arr.Bytes = append(b.arr.Bytes, 0)
+							}
+							if b.chunkBuf[i/8]>>(i%8)&1 == 1 {
+								b.arr.Bytes[pos/8] |= 1 << (pos % 8)
+							}
+						}
+						b.bitLen += b.chunkBits
+					}
 				} else {
+					b.arr.Bytes = append(b.arr.Bytes, e.Bs...)
 					w := uint64(1)
 					if b.arr.Kind == KArray {
 						w = elemBits(b.arr.AT) / 8
@@ -525,6 +544,7 @@ func (b *builder) chunkRemBytesConsume(n uint64, w uint64) {
 
 func (b *builder) finishArray() {
 	b.pend = 0
+	b.bitLen = 0
 	n := b.arr
 	b.arr = nil
 	if n.Bytes == nil {
